@@ -174,7 +174,7 @@ class ClassInfo:
 
 
 class Module:
-    def __init__(self, name, path, src=None):
+    def __init__(self, name, path, src=None, unstable=frozenset()):
         self.name, self.path = name, path
         if src is None:
             with open(path, encoding='utf-8') as fh:
@@ -185,9 +185,12 @@ class Module:
             self.tree = ast.parse(self.src, filename=path)
         except SyntaxError as e:
             raise AnalysisError('module %s does not parse: %s' % (path, e))
+        strip_annotations(self.tree)
+        canonicalise_conditions(self.tree)
+        desugar_map_filter(self.tree)
         self.inlined = inline_expression_helpers(self.tree)
         self.propagated = propagate_simple_constants(self.tree)
-        self.aliases_inlined = inline_pure_aliases(self.tree)
+        self.aliases_inlined = inline_pure_aliases(self.tree, unstable)
         self.tail_inlined = inline_tail_helpers(self.tree)
         for parent in ast.walk(self.tree):
             for ch in ast.iter_child_nodes(parent):
@@ -262,15 +265,24 @@ class Repo:
         self.pkgdir = os.path.join(self.root, PKG)
         self.modules = {}
         self.overrides = overrides or {}
+        sources = []
+        for fn in sorted(os.listdir(self.pkgdir)):
+            if fn.endswith('.py'):
+                if fn[:-3] in self.overrides and self.overrides[fn[:-3]] is not None:
+                    sources.append(self.overrides[fn[:-3]])
+                else:
+                    with open(os.path.join(self.pkgdir, fn), encoding='utf-8') as fh:
+                        sources.append(fh.read())
+        unstable = computed_attribute_names(sources)
         for m in MODULE_NAMES:
             p = os.path.join(self.pkgdir, m + '.py')
             if not os.path.exists(p):
                 raise AnalysisError('anchor module missing: %s' % p)
-            self.modules[m] = Module(m, p, self.overrides.get(m))
+            self.modules[m] = Module(m, p, self.overrides.get(m), unstable)
         # any further module in the package is loaded too (a refactor may add one)
         for fn in sorted(os.listdir(self.pkgdir)):
             if fn.endswith('.py') and fn[:-3] not in self.modules:
-                self.modules[fn[:-3]] = Module(fn[:-3], os.path.join(self.pkgdir, fn))
+                self.modules[fn[:-3]] = Module(fn[:-3], os.path.join(self.pkgdir, fn), None, unstable)
         # literals moved to module level and imported elsewhere: second propagation pass over the importers
         for m in self.modules.values():
             extra = {}
@@ -439,6 +451,10 @@ class Repo:
                 v = _string
             elif r[0] == 'ext' and r[1] == 'string':
                 v = getattr(_string, r[2])
+            elif r[0] == 'extmod' and r[1] == 'itertools':
+                v = _ItertoolsNS
+            elif r[0] == 'ext' and (r[1], r[2]) in _SAFE_EXTERNALS:
+                v = _SAFE_EXTERNALS[(r[1], r[2])]
             else:
                 raise Unfoldable('cannot fold %s.%s (%r)' % (module.name, name, r[:2]))
         except Unfoldable as e:
@@ -467,6 +483,13 @@ _SAFE_BUILTINS = {
     'True': True, 'False': False, 'None': None,
     'map': lambda f, *its: [f(*xs) for xs in zip(*its)], 'sum': sum, 'any': any, 'all': all, 'abs': abs,
 }
+import itertools as _itertools
+class _ItertoolsNS:
+    pass
+
+
+_SAFE_EXTERNALS = {('itertools', 'product'): lambda *a, **k: list(_itertools.product(*a, **k)),
+                   ('itertools', 'chain'): lambda *a: list(_itertools.chain(*a))}
 _SAFE_METHODS = {
     str: {'join', 'format', 'upper', 'lower', 'strip', 'split', 'replace', 'startswith', 'endswith'},
     set: {'union', 'intersection', 'difference', 'copy'},
@@ -600,6 +623,10 @@ class Folder:
             raise Unfoldable('enum %s has no member %s' % (base.name, n.attr))
         if isinstance(base, ClassRef):
             return self.repo.class_attr(base.info, n.attr)
+        if base is _ItertoolsNS:
+            if ('itertools', n.attr) in _SAFE_EXTERNALS:
+                return _SAFE_EXTERNALS[('itertools', n.attr)]
+            raise Unfoldable('itertools.%s' % n.attr)
         if base is _string:
             if n.attr in ('printable', 'ascii_letters', 'ascii_lowercase', 'ascii_uppercase', 'digits',
                           'punctuation', 'whitespace'):
@@ -634,7 +661,7 @@ class Folder:
         if f is max or f is min:
             if len(args) == 1 and isinstance(args[0], FEnum):
                 return f(int(m) for m in args[0])
-        allowed = set(_SAFE_BUILTINS.values())
+        allowed = set(_SAFE_BUILTINS.values()) | set(_SAFE_EXTERNALS.values())
         is_method = getattr(f, '__self__', None) is not None and not isinstance(f.__self__, type(_string))
         if (f in allowed and not isinstance(f, bool) and f is not None) or is_method or callable(f) and getattr(f, '__name__', '') == 'fn':
             try:
@@ -772,6 +799,129 @@ def _pure_simple(e):
     if isinstance(e, ast.Attribute):
         return _pure_simple(e.value)
     return False
+
+
+_NEG_OPS = {ast.NotEq: ast.Eq, ast.NotIn: ast.In, ast.IsNot: ast.Is}
+
+
+def _negated(e):
+    """the positive form P when e is syntactically `not P` / `a != b` / `a not in b` / `a is not b`, else None"""
+    if isinstance(e, ast.UnaryOp) and isinstance(e.op, ast.Not):
+        return e.operand
+    if isinstance(e, ast.Compare) and len(e.ops) == 1 and type(e.ops[0]) in _NEG_OPS:
+        return ast.copy_location(ast.Compare(e.left, [_NEG_OPS[type(e.ops[0])]()], e.comparators), e)
+    return None
+
+
+def canonicalise_conditions(tree):
+    """Inverting a two-armed conditional or applying De Morgan does not change behaviour; the rules should not notice:
+      * `if <negative>: A else: B` (A, B non-empty)  ->  `if <positive>: B else: A`   (also conditional expressions);
+      * `N1 or N2 ...` with every operand syntactically negative  ->  `not (P1 and P2 ...)`, and dually for `and`
+        (short-circuit order is kept: the operands stay in place).
+    A one-armed `if not x:` is left alone."""
+    class C(ast.NodeTransformer):
+        def visit_BoolOp(self, n):
+            self.generic_visit(n)
+            pos = [_negated(v) for v in n.values]
+            if all(p is not None for p in pos) and len(pos) >= 2:
+                inner = ast.BoolOp(ast.And() if isinstance(n.op, ast.Or) else ast.Or(), pos)
+                return ast.copy_location(ast.UnaryOp(ast.Not(), ast.copy_location(inner, n)), n)
+            return n
+
+        def visit_UnaryOp(self, n):
+            self.generic_visit(n)
+            # not not P  /  not (a != b)
+            if isinstance(n.op, ast.Not):
+                p = _negated(n.operand)
+                if p is not None and isinstance(n.operand, ast.UnaryOp):
+                    return p
+            return n
+
+        def visit_If(self, n):
+            self.generic_visit(n)
+            p = _negated(n.test)
+            if p is not None and n.orelse and n.body and not (len(n.orelse) == 1 and isinstance(n.orelse[0], ast.If)):
+                n.test, n.body, n.orelse = p, n.orelse, n.body
+            return n
+
+        def visit_IfExp(self, n):
+            self.generic_visit(n)
+            p = _negated(n.test)
+            if p is not None:
+                n.test, n.body, n.orelse = p, n.orelse, n.body
+            return n
+    C().visit(tree)
+    ast.fix_missing_locations(tree)
+
+
+def desugar_map_filter(tree):
+    """map / filter with a simple function are generator expressions:  map(f, it) -> (f(_e) for _e in it),
+    map(operator.attrgetter('a'), it) -> (_e.a for _e in it), map(lambda x: E, it) -> (E for x in it),
+    filter(lambda x: C, it) -> (x for x in it if C), filter(None, it) -> (_e for _e in it if _e).  (Both are lazy and
+    evaluate in the same order; only the StopIteration-inside-the-function corner differs.)"""
+    import copy
+    counter = [0]
+
+    def fresh():
+        counter[0] += 1
+        return '_e%d' % counter[0]
+
+    class D(ast.NodeTransformer):
+        def visit_Call(self, n):
+            self.generic_visit(n)
+            if not (isinstance(n.func, ast.Name) and n.func.id in ('map', 'filter') and len(n.args) == 2 and not n.keywords):
+                return n
+            f, it = n.args
+            if isinstance(it, ast.Starred):
+                return n
+            if n.func.id == 'map':
+                if isinstance(f, ast.Lambda) and len(f.args.args) == 1 and not f.args.defaults and not f.args.vararg:
+                    x = f.args.args[0].arg
+                    elt, tgt = f.body, ast.Name(x, ast.Store())
+                elif isinstance(f, ast.Call) and ast.unparse(f.func) in ('operator.attrgetter', 'attrgetter') and len(f.args) == 1 \
+                        and isinstance(f.args[0], ast.Constant) and isinstance(f.args[0].value, str) and f.args[0].value.isidentifier():
+                    x = fresh()
+                    elt, tgt = ast.Attribute(ast.Name(x, ast.Load()), f.args[0].value, ast.Load()), ast.Name(x, ast.Store())
+                elif isinstance(f, (ast.Name, ast.Attribute)):
+                    x = fresh()
+                    elt, tgt = ast.Call(f, [ast.Name(x, ast.Load())], []), ast.Name(x, ast.Store())
+                else:
+                    return n
+                g = ast.GeneratorExp(elt, [ast.comprehension(tgt, it, [], 0)])
+            else:
+                if isinstance(f, ast.Lambda) and len(f.args.args) == 1 and not f.args.defaults and not f.args.vararg:
+                    x = f.args.args[0].arg
+                    g = ast.GeneratorExp(ast.Name(x, ast.Load()), [ast.comprehension(ast.Name(x, ast.Store()), it, [f.body], 0)])
+                elif isinstance(f, ast.Constant) and f.value is None:
+                    x = fresh()
+                    g = ast.GeneratorExp(ast.Name(x, ast.Load()), [ast.comprehension(ast.Name(x, ast.Store()), it, [ast.Name(x, ast.Load())], 0)])
+                else:
+                    return n
+            return ast.copy_location(g, n)
+    D().visit(tree)
+    ast.fix_missing_locations(tree)
+
+
+def strip_annotations(tree):
+    """type annotations carry no behaviour: `x: T = v` is read as `x = v`, a bare `x: T` disappears, parameter and
+    return annotations are dropped"""
+    class A(ast.NodeTransformer):
+        def visit_AnnAssign(self, n):
+            self.generic_visit(n)
+            if n.value is None:
+                return ast.copy_location(ast.Pass(), n)
+            return ast.copy_location(ast.Assign([n.target], n.value), n)
+
+        def visit_FunctionDef(self, n):
+            self.generic_visit(n)
+            n.returns = None
+            return n
+
+        def visit_arg(self, n):
+            n.annotation = None
+            return n
+    A().visit(tree)
+    ast.fix_missing_locations(tree)
 
 
 # module-level names with a literal initialiser that the rules refer to by name (they stay names)
@@ -939,13 +1089,56 @@ def inline_tail_helpers(tree):
     return done
 
 
-def inline_pure_aliases(tree):
+def computed_attribute_names(sources):
+    """names that some class of the package defines as a property or method: reading such an attribute computes a
+    value, so two reads need not agree (Buffer.position, TexNode.contents, ...)"""
+    names = set()
+    for src in sources:
+        try:
+            t = ast.parse(src)
+        except SyntaxError:
+            continue
+        for c in ast.walk(t):
+            if isinstance(c, ast.ClassDef):
+                for st in c.body:
+                    if isinstance(st, ast.FunctionDef):
+                        names.add(st.name)
+    return frozenset(names)
+
+
+def inline_pure_aliases(tree, unstable=frozenset()):
     """"Read an attribute once into a local" is invisible to the rules: inside a function, a local that is bound
     exactly once, by a top-level statement `x = self.a.b` (a pure attribute chain rooted at `self`), is replaced by the
     chain where it is read -- provided the function never stores to the chain's root attribute (`self.a = ...`), never
     deletes it and declares nothing global.  Returns the list of (function, local) pairs."""
     import copy
     done = []
+    module_attr_stores = {n.attr for n in ast.walk(tree) if isinstance(n, ast.Attribute) and isinstance(n.ctx, (ast.Store, ast.Del))}
+    # per class: names computed by the class itself or a base defined in this module, and attributes of `self` stored
+    # outside the constructors
+    classes = {c.name: c for c in ast.walk(tree) if isinstance(c, ast.ClassDef)}
+
+    def class_facts(c, seen=()):
+        computed, stored = set(), set()
+        for st in c.body:
+            if isinstance(st, ast.FunctionDef):
+                computed.add(st.name)
+                if st.name not in ('__init__', '__new__'):
+                    for n in ast.walk(st):
+                        if isinstance(n, ast.Attribute) and isinstance(n.ctx, (ast.Store, ast.Del)) and isinstance(n.value, ast.Name) \
+                                and n.value.id == 'self':
+                            stored.add(n.attr)
+        for b in c.bases:
+            if isinstance(b, ast.Name) and b.id in classes and b.id not in seen:
+                c2, s2 = class_facts(classes[b.id], seen + (c.name,))
+                computed |= c2
+                stored |= s2
+        return computed, stored
+    owner_of = {}
+    for c in classes.values():
+        for st in c.body:
+            if isinstance(st, ast.FunctionDef):
+                owner_of[st] = c
     for fn in ast.walk(tree):
         if not isinstance(fn, ast.FunctionDef):
             continue
@@ -954,16 +1147,13 @@ def inline_pure_aliases(tree):
             params.add(fn.args.vararg.arg)
         if fn.args.kwarg:
             params.add(fn.args.kwarg.arg)
-        if 'self' not in params:
-            continue
         stores = {}
         attr_stores = set()
         nested = False
         for n in ast.walk(fn):
             if isinstance(n, ast.Name) and isinstance(n.ctx, (ast.Store, ast.Del)):
                 stores[n.id] = stores.get(n.id, 0) + 1
-            elif isinstance(n, ast.Attribute) and isinstance(n.ctx, (ast.Store, ast.Del)) and isinstance(n.value, ast.Name) \
-                    and n.value.id == 'self':
+            elif isinstance(n, ast.Attribute) and isinstance(n.ctx, (ast.Store, ast.Del)):
                 attr_stores.add(n.attr)
             elif isinstance(n, (ast.Global, ast.Nonlocal)):
                 nested = True
@@ -981,8 +1171,29 @@ def inline_pure_aliases(tree):
                 while isinstance(x, ast.Attribute):
                     chain.append(x.attr)
                     x = x.value
-                if isinstance(x, ast.Name) and x.id == 'self' and chain and stores.get(nm, 0) == 1 and nm not in params \
-                        and chain[-1] not in attr_stores and len(chain) <= 2:
+                # the root: `self`, a parameter that is never rebound, or a local bound exactly once by an earlier
+                # top-level statement of the function
+                root_ok = isinstance(x, ast.Name) and (
+                    x.id == 'self' and 'self' in params
+                    or (x.id in params and stores.get(x.id, 0) == 0)
+                    or (x.id not in params and stores.get(x.id, 0) == 1 and any(
+                        isinstance(e_, ast.Assign) and len(e_.targets) == 1 and isinstance(e_.targets[0], ast.Name)
+                        and e_.targets[0].id == x.id for e_ in fn.body[:fn.body.index(st)])))
+                # the attributes must be plain data: not computed by a property/method of any class of the package,
+                # and -- when the root is not `self` -- never stored to anywhere in this module
+                if not chain:
+                    stable = False
+                elif isinstance(x, ast.Name) and x.id == 'self' and fn in owner_of:
+                    # `self.<a>`: <a> is plain data of this class (neither it nor a base computes it) and the class
+                    # rebinds it only in its constructors; a longer chain needs package-wide plain attributes
+                    comp_, stored_ = class_facts(owner_of[fn])
+                    stable = chain[-1] not in comp_ and chain[-1] not in stored_ and not (set(chain[:-1]) & unstable)
+                elif isinstance(x, ast.Name):
+                    stable = not (set(chain) & unstable) and not (set(chain) & module_attr_stores)
+                else:
+                    stable = False
+                if root_ok and stable and chain and stores.get(nm, 0) == 1 and nm not in params \
+                        and not (set(chain) & attr_stores) and len(chain) <= 2 and x.id not in env:
                     env[nm] = v
         if not env:
             continue
@@ -1121,15 +1332,26 @@ def effective_method(cls, fd, depth=0):
     c = body[0].value
     if isinstance(c, ast.Call) and isinstance(c.func, ast.Name) and c.func.id == 'iter' and len(c.args) == 1 and not c.keywords:
         c = c.args[0]       # iter(<generator>) is that generator
-    if not (isinstance(c, ast.Call) and isinstance(c.func, ast.Attribute) and isinstance(c.func.value, ast.Name)
-            and c.func.value.id == 'self' and c.func.attr.startswith('_') and not c.func.attr.endswith('__')):
+    modfunc = None
+    if isinstance(c, ast.Call) and isinstance(c.func, ast.Name) and c.func.id.startswith('_') and c.func.id in fd.module.functions \
+            and c.args and isinstance(c.args[0], ast.Name) and c.args[0].id == 'self':
+        modfunc = fd.module.functions[c.func.id]      # _helper(self, ...): a private module-level function
+    if modfunc is None and not (isinstance(c, ast.Call) and isinstance(c.func, ast.Attribute) and isinstance(c.func.value, ast.Name)
+                                and c.func.value.id == 'self' and c.func.attr.startswith('_') and not c.func.attr.endswith('__')):
         return fd
-    owner, kind, h = cls.lookup(c.func.attr)
+    if modfunc is not None:
+        kind, h = 'method', modfunc
+        import copy as _copy
+        c = _copy.copy(c)
+        c.args = c.args[1:]
+    else:
+        owner, kind, h = cls.lookup(c.func.attr)
     if kind != 'method' or h.decorators:
         return fd
     if any(isinstance(a, ast.Starred) for a in c.args) or any(k.arg is None for k in c.keywords):
         return fd
     params = h.params()[1:]
+    self_name = h.params()[0] if h.params() else 'self'
     if h.node.args.vararg or h.node.args.kwarg or h.node.args.kwonlyargs:
         return fd
     env = dict(zip(params, c.args))
@@ -1151,6 +1373,9 @@ def effective_method(cls, fd, depth=0):
 
     class Sub(ast.NodeTransformer):
         def visit_Name(self, n):
+            if n.id == self_name and self_name != 'self':
+                n.id = 'self'
+                return n
             if n.id in env and isinstance(n.ctx, ast.Load):
                 return ast.copy_location(copy.deepcopy(env[n.id]), n)
             if n.id in env and isinstance(env[n.id], ast.Name):
@@ -1201,6 +1426,39 @@ def loop_form(fnode):
     for x in ast.walk(loop):
         if not hasattr(x, 'lineno'):
             x.lineno, x.col_offset, x.end_lineno, x.end_col_offset = body[0].lineno, 0, body[0].lineno, 0
+    for parent in ast.walk(new):
+        for ch in ast.iter_child_nodes(parent):
+            ch._parent = parent
+    return new
+
+
+def with_self_aliases_resolved(fnode):
+    """a copy of the function in which every local bound exactly once to an attribute chain of `self` (no calls) is
+    replaced by that chain where it is read -- for rules that ask *which object* an operation touches (frame rules):
+    the alias names the same object whatever happens in between"""
+    import copy
+    stores = {}
+    for n in ast.walk(fnode):
+        if isinstance(n, ast.Name) and isinstance(n.ctx, (ast.Store, ast.Del)):
+            stores[n.id] = stores.get(n.id, 0) + 1
+    env = {}
+    for n in ast.walk(fnode):
+        if isinstance(n, ast.Assign) and len(n.targets) == 1 and isinstance(n.targets[0], ast.Name) and stores.get(n.targets[0].id) == 1:
+            x = n.value
+            while isinstance(x, ast.Attribute):
+                x = x.value
+            if isinstance(x, ast.Name) and x.id == 'self' and isinstance(n.value, ast.Attribute):
+                env[n.targets[0].id] = n.value
+    if not env:
+        return fnode
+    new = copy.deepcopy(fnode)
+
+    class Sub(ast.NodeTransformer):
+        def visit_Name(self, n):
+            if isinstance(n.ctx, ast.Load) and n.id in env:
+                return ast.copy_location(copy.deepcopy(env[n.id]), n)
+            return n
+    new = Sub().visit(new)
     for parent in ast.walk(new):
         for ch in ast.iter_child_nodes(parent):
             ch._parent = parent
